@@ -308,9 +308,19 @@ func (w *Worker) finishPath(s *State) {
 	// co-simulation sample
 	if w.cfg.Cosim > 0 && len(w.st.CosimCases) < w.cfg.Cosim && s.obs != nil {
 		w.seq++
-		m, err := w.model2(s)
-		if err == nil {
-			w.st.CosimCases = append(w.st.CosimCases, CosimCase{Harness: w.cfg.Harness, Inputs: m})
+		// only paths that are feasible with a quiet clock (all steps zero) are sampled: a native
+		// run cannot make the wall clock jump
+		var quiet []*Term
+		for _, in := range s.inputs {
+			if strings.HasPrefix(in.S, "clock.step") {
+				quiet = append(quiet, w.tc.Eq(in, w.tc.BV(64, 0)))
+			}
+		}
+		w.oneShotVals = nil
+		if w.sol.CheckPC(s.pc, quiet...) == "sat" {
+			if m, err := w.model(s); err == nil {
+				w.st.CosimCases = append(w.st.CosimCases, CosimCase{Harness: w.cfg.Harness, Inputs: m})
+			}
 		}
 	}
 }
